@@ -77,6 +77,16 @@ type device struct {
 	firstMismatch  bool // ... and it was the very first request
 	nonDone        int
 	refusedReplyAt string // device state in which a refused(reply) outcome happened last
+	// bare: refusals at gRPC level carry no message, as the JSON-transport control plugin (OccLiteServer) answers them
+	// with a bare CANCELLED status; otherwise they carry the messages of the protobuf plugin
+	bare bool
+}
+
+func (d *device) refusal(code codes.Code, msg string) error {
+	if d.bare {
+		return status.Error(codes.Canceled, "")
+	}
+	return status.Error(code, msg)
 }
 
 func (d *device) GetState(context.Context, *pb.GetStateRequest) (*pb.GetStateReply, error) {
@@ -98,14 +108,14 @@ func (d *device) Transition(_ context.Context, req *pb.TransitionRequest) (*pb.T
 		}
 		st.Outcome = "src-mismatch"
 		st.Reply = "grpc INVALID_ARGUMENT"
-		return nil, status.Error(codes.InvalidArgument, "transition not possible: state mismatch: source: "+req.SrcState+" current: "+d.state)
+		return nil, d.refusal(codes.InvalidArgument, "transition not possible: state mismatch: source: "+req.SrcState+" current: "+d.state)
 	}
 	final, valid := d.tbl[d.state][req.TransitionEvent]
 	if !valid {
 		d.lastMismatch = true
 		st.Outcome = "invalid-event"
 		st.Reply = "grpc INTERNAL"
-		return nil, status.Error(codes.Internal, "no transitions made, current state stays "+d.state)
+		return nil, d.refusal(codes.Internal, "no transitions made, current state stays "+d.state)
 	}
 	o := d.choose()
 	st.Outcome = outcomeNames[o]
@@ -124,7 +134,7 @@ func (d *device) Transition(_ context.Context, req *pb.TransitionRequest) (*pb.T
 	case oRefusedGrpc:
 		d.lastInjected = true
 		st.Reply = "grpc INTERNAL"
-		return nil, status.Error(codes.Internal, "no transitions made, current state stays "+d.state)
+		return nil, d.refusal(codes.Internal, "no transitions made, current state stays "+d.state)
 	case oToError:
 		d.state = "ERROR"
 		st.Reply = "not-ok ERROR"
@@ -335,71 +345,81 @@ func TestCommitExhaustive(t *testing.T) {
 	var samples []interface{}
 	seenViolations := map[string]bool{}
 	for _, m := range modes {
-		rg, err := newRig(m.mode, m.tbl)
-		if err != nil {
-			t.Skipf("rig: %v", err)
-		}
-		for _, ev := range []string{"CONFIGURE", "START", "STOP", "RESET", "EXIT"} {
-			for _, src := range validSrc[ev] {
-				for _, devState := range m.states {
-					n := enumerate(func(choose func() int) {
-						rg.dev.reset(devState, choose)
-						c := &commitCase{Mode: m.name, Event: ev, Src: src, Dst: dstOf[ev], Device: devState}
-						// as the executor does it: the command object decoded from the core's message, given the task's transitioner,
-						// is committed and the response is prepared from what it returned
-						cmd := &executorcmd.ExecutorCommand_Transition{
-							MesosCommand_Transition: *controlcommands.NewMesosCommand_Transition(envId, nil, src, ev, dstOf[ev], nil),
-							Transitioner:            rg.client.Transitioner,
-						}
-						cmd.Arguments = map[string]string{"k": "v"}
-						report, err := cmd.Commit()
-						if resp := cmd.PrepareResponse(err, report, "verif-task"); resp.CurrentState != report || (err == nil) != (resp.Err() == nil) {
-							t.Errorf("PrepareResponse(%v, %q) carries state %q error %v", err, report, resp.CurrentState, resp.Err())
-						}
-						// the response the executor would send carries exactly this state and error
-						c.Steps = append([]step(nil), rg.dev.steps...)
-						c.Report, c.DevEnd = report, rg.dev.state
-						if err != nil {
-							c.Err = err.Error()
-						}
-						for _, s := range c.Steps {
-							c.Script = append(c.Script, s.Event+":"+s.Outcome)
-						}
-						v, sig := judge(m.name, c, rg.dev, report, err)
-						if v == "" {
-							v, sig = judgeRollback(m.name, c, rg.dev)
-						}
-						total++
-						classes["mode:"+m.name]++
-						classes["event:"+ev]++
-						if rg.dev.nonDone > 0 {
-							nontrivial++
-							classes["has-fault"]++
-						}
-						wrongSrc := (m.name == "fairmq" && fmqOf[src] != devState) || (m.name == "direct" && src != devState)
-						if wrongSrc {
-							classes["wrong-source"]++
-						}
-						if len(samples) < 3 && rg.dev.nonDone >= 2 {
-							samples = append(samples, c)
-						}
-						if v != "" {
-							c.Verdict = v
-							key := m.name + "|" + ev + "|" + sig
-							res := vh.Result{Violation: fmt.Sprintf("[%s %s %s->%s, device in %s, steps %v] %s", m.name, ev, src, dstOf[ev], devState, c.Script, v), Signature: sig, NonTrivial: true, History: c.Steps}
-							if !seenViolations[key] { // one replay file per root cause signature
-								seenViolations[key] = true
-								if msg := vh.LogCase(prop, t.Name()+"/"+strings.ReplaceAll(key, "|", "_"), c, res); msg != "" {
-									t.Errorf("%s", msg)
+		for _, bare := range []bool{false, true} {
+			rg, err := newRig(m.mode, m.tbl)
+			if err != nil {
+				t.Skipf("rig: %v", err)
+			}
+			rg.dev.bare = bare
+			for _, ev := range []string{"CONFIGURE", "START", "STOP", "RESET", "EXIT"} {
+				for _, src := range validSrc[ev] {
+					for _, devState := range m.states {
+						n := enumerate(func(choose func() int) {
+							rg.dev.reset(devState, choose)
+							c := &commitCase{Mode: m.name, Event: ev, Src: src, Dst: dstOf[ev], Device: devState}
+							// as the executor does it: the command object decoded from the core's message, given the task's transitioner,
+							// is committed and the response is prepared from what it returned
+							cmd := &executorcmd.ExecutorCommand_Transition{
+								MesosCommand_Transition: *controlcommands.NewMesosCommand_Transition(envId, nil, src, ev, dstOf[ev], nil),
+								Transitioner:            rg.client.Transitioner,
+							}
+							cmd.Arguments = map[string]string{"k": "v"}
+							report, err := cmd.Commit()
+							respLost := ""
+							if resp := cmd.PrepareResponse(err, report, "verif-task"); resp.CurrentState != report || (err == nil) != (resp.Err() == nil) {
+								respLost = fmt.Sprintf("the transition returned state %q error %v, the response prepared for the core carries state %q error %v", report, err, resp.CurrentState, resp.Err())
+							}
+							// the response the executor would send carries exactly this state and error
+							c.Steps = append([]step(nil), rg.dev.steps...)
+							c.Report, c.DevEnd = report, rg.dev.state
+							if err != nil {
+								c.Err = err.Error()
+							}
+							for _, s := range c.Steps {
+								c.Script = append(c.Script, s.Event+":"+s.Outcome)
+							}
+							v, sig := judge(m.name, c, rg.dev, report, err)
+							if v == "" {
+								v, sig = judgeRollback(m.name, c, rg.dev)
+							}
+							if v == "" && respLost != "" {
+								v, sig = respLost, "response-differs-from-result"
+							}
+							if rg.dev.bare {
+								classes["bare-grpc-status"]++
+							}
+							total++
+							classes["mode:"+m.name]++
+							classes["event:"+ev]++
+							if rg.dev.nonDone > 0 {
+								nontrivial++
+								classes["has-fault"]++
+							}
+							wrongSrc := (m.name == "fairmq" && fmqOf[src] != devState) || (m.name == "direct" && src != devState)
+							if wrongSrc {
+								classes["wrong-source"]++
+							}
+							if len(samples) < 3 && rg.dev.nonDone >= 2 {
+								samples = append(samples, c)
+							}
+							if v != "" {
+								c.Verdict = v
+								key := m.name + "|" + ev + "|" + sig
+								res := vh.Result{Violation: fmt.Sprintf("[%s %s %s->%s, device in %s, steps %v] %s", m.name, ev, src, dstOf[ev], devState, c.Script, v), Signature: sig, NonTrivial: true, History: c.Steps}
+								if !seenViolations[key] { // one replay file per root cause signature
+									seenViolations[key] = true
+									if msg := vh.LogCase(prop, t.Name()+"/"+strings.ReplaceAll(key, "|", "_"), c, res); msg != "" {
+										t.Errorf("%s", msg)
+									}
 								}
 							}
-						}
-					})
-					_ = n
+						})
+						_ = n
+					}
 				}
 			}
+			rg.close()
 		}
-		rg.close()
 	}
 	vh.Summary(t.Name(), total, nontrivial, classes, samples, true)
 }
